@@ -80,6 +80,17 @@ theorem runL_map {α β} (g : α → β) (P : List SlotOp) (l : List α) (d : α
   | nil => rfl
   | cons op P ih => simp only [runL_cons]; rw [run_map, ih]
 
+/-- two columns of equal length run through the same program = their pair column run through it -/
+theorem runL_zip {α β} (P : List SlotOp) (a : List α) (b : List β) (da : α) (db : β) (hl : a.length = b.length) :
+    runL P (a.zip b) (da, db) = (runL P a da).zip (runL P b db) := by
+  have h1 := runL_map Prod.fst P (a.zip b) (da, db)
+  have h2 := runL_map Prod.snd P (a.zip b) (da, db)
+  rw [List.map_fst_zip (by omega)] at h1
+  rw [List.map_snd_zip (by omega)] at h2
+  simp only at h1 h2
+  rw [h1, h2]
+  exact (List.zip_of_prod rfl rfl)
+
 /-! ### slot maps: a program is a choice, for every result slot, of a source slot or the default -/
 
 /-- result of the program on the column `0, 1, …, n-1` (default `none`) -/
@@ -588,14 +599,6 @@ variable (k : Kernel) (p : Props)
 @[simp] theorem withP_nHE : (k.withP p).nHE = k.nHE := rfl
 @[simp] theorem withP_nHF : (k.withP p).nHF = k.nHF := rfl
 end fields
-
-syntax "wp_go" : tactic
-macro_rules | `(tactic| wp_go) => `(tactic| first | rfl | (split <;> (try simp only [*, if_true, if_false, ↓reduceIte]) <;> wp_go))
-
-/-- normalise the field reads of `k.withP p`, split the mode tests, close by unfolding -/
-macro "wp_tac" : tactic => `(tactic| ((try simp only [withP_nV, withP_edges, withP_faces, withP_cells, withP_vDel, withP_eDel,
-  withP_fDel, withP_cDel, withP_nDelV, withP_nDelE, withP_nDelF, withP_nDelC, withP_deferred, withP_fast, withP_vBU,
-  withP_eBU, withP_fBU, withP_outHes, withP_incHfs, withP_incCell, withP_fault, withP_props]) <;> wp_go))
 
 end Kernel
 end OVM
